@@ -93,6 +93,18 @@ CHECKS.update({
         design_ref="DESIGN.md section 5 C12"),
 })
 
+CHECKS.update({
+    "C04": dict(
+        category="model_checking",
+        technique="TLA+ spec of flag resolution and the approval gate (spec/ISConfig.tla, MC_Config.tla) model-checked by TLC; emitted configurations replayed as real pytest sessions",
+        text="TLC checks `applied = approved by the user /\\ pending` for every configuration of flag sources "
+             "(command line, shortcut, environment variable, pyproject default-flags / -tui), modes, CI / PyCharm / "
+             "terminal, xdist (controller and workers as separate processes), skip-updates and review answers; a stride "
+             "sample of the configurations is run as real sessions on a project with one pending change per category "
+             "and the applied categories are read off the files",
+        design_ref="DESIGN.md section 5 C04"),
+})
+
 NOT_YET = {
 }
 
